@@ -189,6 +189,24 @@ def part_accept(job):
                                 'raised=%r valid=%r packets sent=%r' % (lname, period, size, raised, conf.valid,
                                                                         [d.hex() for _, d in sent][:3]), rp)
                     cf.log.log_blocks[:] = cf.log.log_blocks[:nblocks0]
+                elif cls == 'period' and exp_vars is not None and size <= 26:
+                    # the application corrects the period of the refused configuration and adds the same object again:
+                    # it must then list exactly its variables, once each
+                    conf.period_in_ms = 100
+                    conf.period = 10
+                    try:
+                        cf.log.add_config(conf)
+                        got_names = [(v.name if v.is_toc_variable() else 'mem') for v in conf.variables]
+                        want_names = [(v[4] if v[0] == 'toc' else 'mem') for v in exp_vars]
+                        p.case(key=('readd_after_refusal', lname, period), outcome=('readd', len(got_names)))
+                        if not conf.valid or sorted(got_names) != sorted(want_names):
+                            p.violation('accept:variable_list_after_refused_add', 'list %s refused for its period (%r ms), period '
+                                        'corrected, added again: valid=%r, variables %r, requested %r' % (
+                                            lname, period, conf.valid, got_names, want_names), rp)
+                    except Exception as e:  # noqa
+                        p.violation('accept:readd_after_refusal_raises', 'list %s refused for its period, corrected, added '
+                                    'again: raised %r' % (lname, e), rp)
+                    cf.log.log_blocks[:] = cf.log.log_blocks[:nblocks0]
                 continue
             if not conf.valid or link.tx[tx0:]:
                 p.violation('accept:state_after_add', 'accepted list %s: valid=%r, packets sent by add_config=%r' % (
